@@ -29,6 +29,26 @@ func init() {
 		pk + "verifInt":  func(r *Run, fr *frame, a []Value) Value { return r.nondet(a[0].(Str).s, "int", 64) },
 		pk + "verifBool": func(r *Run, fr *frame, a []Value) Value { return r.nondet(a[0].(Str).s, "bool", 0) },
 		pk + "verifBuf":  inVerifBuf,
+		pk + "verifRange": func(r *Run, fr *frame, a []Value) Value {
+			// verifRange(name, lo, hi): lo <= result <= hi, variable only as wide as hi needs
+			c := r.ctx
+			lo, hi := a[1].(*Term), a[2].(*Term)
+			name := r.freshName(a[0].(Str).s)
+			k := pickWidth(hi.rhi)
+			r.nondets = append(r.nondets, NondetInfo{Name: name, Kind: "int", W: k})
+			if r.concrete != nil {
+				return c.Const(64, r.concrete.Vars[name])
+			}
+			if k >= 64 {
+				v := c.Var(name, 64)
+				r.assume(c.And(c.Sle(lo, v), c.Sle(v, hi)), "range")
+				return v
+			}
+			nv := c.Var(name, k)
+			v := c.Zext(nv, 64)
+			r.assume(c.And(c.Sle(lo, v), c.Sle(v, hi)), "range")
+			return v
+		},
 		pk + "verifAssume": func(r *Run, fr *frame, a []Value) Value {
 			r.assume(a[0].(*Term), "")
 			return nil
